@@ -521,12 +521,7 @@ fn group_of(t: &Term) -> Option<GroupCase> {
         [name, asn, lasn, hold, passive, rs, rrc, cluster, fams, sm, gr, llgr, nets] => {
             let mut dynamic_peers = Vec::new();
             for n in nets.tagged("nets")? {
-                // histories use well-formed prefixes only (what IpNet::from_str lets through);
-                // out-of-range masks are exercised by the `contains` cases
-                let [b, m] = n.tagged("net")? else { return None };
-                if m.as_u64()? > 8 * b.as_bytes()?.len() as u64 {
-                    return None;
-                }
+                // any length 0..255: the AddDynamicNeighbor handler (IpNet::from_str) decides what is admitted
                 dynamic_peers.push(DynamicPeer { prefix: net_of(n)? });
             }
             Some(GroupCase {
@@ -563,27 +558,24 @@ fn group_of(t: &Term) -> Option<GroupCase> {
 struct PeerCase {
     params: PeerParams,
     group: Option<String>,
+    /// added with the AddPeer request (then `holdtime` is the request's hold_time, 0 = not set)
+    api: bool,
 }
 
-/// The same neighbour as a gRPC `Peer` message, when it can be written as one: no prefix limits
-/// (the API carries none), no GR / LLGR block, a hold time the API can express, an add-path mode per
-/// family that agrees with the send-max (tx bit <=> a send-max of 1..=255), and an expected AS or a group.
+/// The AddPeer request for a neighbour marked `api`.  None = the case cannot be said with a request
+/// (same conditions as `Codec.apiExpressible`: no prefix limits, no GR / LLGR block, a send-max only for
+/// configured families, an add-path mode whose send bit says the same as the send-max): an ill-formed case.
+/// hold_time and send_max go into the request as they are: validating them is `try_from`'s business.
 fn api_peer_of(pc: &PeerCase) -> Option<api::Peer> {
     let p = &pc.params;
     if !p.prefix_limits.is_empty() || p.graceful_restart.is_some() || p.llgr.is_some() {
-        return None;
-    }
-    if p.holdtime == 0 || (p.holdtime != PeerParams::DEFAULT_HOLD_TIME && !(3..=65535).contains(&p.holdtime)) {
-        return None;
-    }
-    if p.expected_remote_asn == 0 && pc.group.is_none() {
         return None;
     }
     let mut fams: Vec<(Family, u8)> = p.families.iter().map(|(f, m)| (*f, *m)).collect();
     fams.sort_by_key(|(f, _)| fam_raw(*f));
     for (f, m) in &fams {
         let sm = p.send_max.get(f).copied().unwrap_or(0);
-        if *m > 3 || (m & 2 != 0) != (sm > 0) || sm > 255 {
+        if *m > 3 || (m & 2 != 0) != (sm > 0) {
             return None;
         }
     }
@@ -603,7 +595,7 @@ fn api_peer_of(pc: &PeerCase) -> Option<api::Peer> {
             add_paths: Some(api::AddPaths {
                 config: Some(api::AddPathsConfig {
                     receive: m & 1 != 0,
-                    send_max: p.send_max.get(f).copied().unwrap_or(0) as u32,
+                    send_max: p.send_max.get(f).copied().unwrap_or(0).min(u32::MAX as usize) as u32,
                 }),
                 ..Default::default()
             }),
@@ -621,7 +613,7 @@ fn api_peer_of(pc: &PeerCase) -> Option<api::Peer> {
         }),
         timers: Some(api::Timers {
             config: Some(api::TimersConfig {
-                hold_time: if p.holdtime == PeerParams::DEFAULT_HOLD_TIME { 0 } else { p.holdtime },
+                hold_time: p.holdtime,
                 ..Default::default()
             }),
             ..Default::default()
@@ -665,10 +657,36 @@ fn api_peer_of(pc: &PeerCase) -> Option<api::Peer> {
     })
 }
 
-/// (peer ip expected local_asn hold passive rs rrclient cluster admin_down (fams..) (sm..) (pl..) gr llgr pol group)
+/// (peer ip expected local_asn hold passive rs rrclient cluster admin_down (fams..) (sm..) (pl..) gr llgr pol group cfg|api)
 fn peer_of(t: &Term) -> Option<PeerCase> {
     match t.tagged("peer")? {
-        [ip, exp, lasn, hold, passive, rs, rrc, cluster, down, fams, sm, pl, gr, llgr, pol, group] => {
+        [ip, exp, lasn, hold, passive, rs, rrc, cluster, down, fams, sm, pl, gr, llgr, pol, group, via] => {
+            let api = match via.as_atom()? {
+                "api" => true,
+                "cfg" => false,
+                _ => return None,
+            };
+            if api {
+                // `Codec.apiExpressible`, on the lists as written (before the maps hide repetitions)
+                let raw = |t: &Term, tag: &str| -> Option<Vec<(u32, u64)>> {
+                    t.tagged(tag)?
+                        .iter()
+                        .map(|e| match e.as_list()? {
+                            [f, n] => Some((fam_raw(fam_of(f)?), n.as_u64()?)),
+                            _ => None,
+                        })
+                        .collect()
+                };
+                let (rf, rs_) = (raw(fams, "fams")?, raw(sm, "sm")?);
+                let distinct = rs_.iter().enumerate().all(|(i, e)| rs_[i + 1..].iter().all(|x| x.0 != e.0));
+                let within = rs_.iter().all(|e| rf.iter().any(|f| f.0 == e.0));
+                let modes = rf
+                    .iter()
+                    .all(|f| f.1 <= 3 && ((f.1 & 2 != 0) == rs_.iter().any(|e| e.0 == f.0 && e.1 > 0)));
+                if !(distinct && within && modes) {
+                    return None;
+                }
+            }
             // none | (some accept|reject (policy names..))
             let export_policy = match opt_of(pol)? {
                 None => None,
@@ -705,7 +723,7 @@ fn peer_of(t: &Term) -> Option<PeerCase> {
                     delete_on_disconnected: false,
                     admin_down: down.as_bool()?,
                     state: SessionState::Idle,
-                    holdtime: u_of(hold, 65535)?,
+                    holdtime: u_of(hold, if api { u32::MAX as u64 } else { 65535 })?,
                     connect_retry_time: PeerParams::DEFAULT_CONNECT_RETRY_TIME,
                     multihop_ttl: None,
                     ttl_security: None,
@@ -724,6 +742,7 @@ fn peer_of(t: &Term) -> Option<PeerCase> {
                     None => None,
                     Some(g) => Some(g.as_atom()?.to_string()),
                 },
+                api,
             })
         }
         _ => None,
@@ -1189,24 +1208,30 @@ async fn run_hist(gt: &Term, groups: &Term, peers: &Term, ops: &Term) -> Option<
         tables.clone(),
     );
     // ---- dynamic prefixes: the real AddDynamicNeighbor handler (IpNet::from_str on the textual prefix)
+    let mut nets_added = Vec::new();
     for (name, nets) in group_nets {
+        let mut flags = Vec::new();
         for n in nets {
-            let _ = svc
+            let ok = svc
                 .add_dynamic_neighbor(tonic::Request::new(api::AddDynamicNeighborRequest {
                     dynamic_neighbor: Some(api::DynamicNeighbor {
                         prefix: n.to_string(),
                         peer_group: name.clone(),
                     }),
                 }))
-                .await;
+                .await
+                .is_ok();
+            flags.push(Term::boolean(ok));
         }
+        nets_added.push(Term::list(flags));
     }
-    // ---- configured neighbours: through the real AddPeer handler (PeerParams::try_from(&api::Peer),
-    // apply_peer_group, add_peer) whenever the parameters can be written as an API message, otherwise
-    // the configuration-loading sequence (apply_peer_group, then add_peer) on the parameters themselves
+    // ---- configured neighbours: those marked `api` through the real AddPeer handler
+    // (PeerParams::try_from(&api::Peer), apply_peer_group, add_peer), the others through the
+    // configuration-loading sequence (apply_peer_group, then add_peer) on the parameters themselves
     let mut added = Vec::new();
     for pc in peers {
-        if let Some(api_peer) = api_peer_of(&pc) {
+        if pc.api {
+            let api_peer = api_peer_of(&pc)?;
             let ok = svc
                 .add_peer(tonic::Request::new(api::AddPeerRequest { peer: Some(api_peer) }))
                 .await
@@ -1231,7 +1256,7 @@ async fn run_hist(gt: &Term, groups: &Term, peers: &Term, ops: &Term) -> Option<
         v.sort_by(|a, b| (a.0.len(), &a.0).cmp(&(b.0.len(), &b.0)));
         Term::tag(
             "setup",
-            vec![Term::list(added), Term::list(v.into_iter().map(|x| x.1).collect())],
+            vec![Term::list(added), Term::list(nets_added), Term::list(v.into_iter().map(|x| x.1).collect())],
         )
     };
     let Some(net) = case_net() else {
